@@ -562,7 +562,7 @@ def _doc_bytes(sc: Dict[str, Any]) -> bytes:
 
 def execute(sc: Dict[str, Any]) -> Dict[str, Any]:
     files = {k: v.encode("latin-1") for k, v in sc["files"].items()}
-    return fakeio.run_cli(cli.main, sc["argv"], files, sc["stdin"].encode("latin-1"), stdin_errors=sc["stdin_errors"], chunks=sc["chunks"], tty=sc.get("tty", False), environ=sc.get("environ"), module=cli, out_encoding=sc.get("out_encoding", "utf-8"))
+    return fakeio.run_cli(cli.main, sc["argv"], files, sc["stdin"].encode("latin-1"), stdin_errors=sc["stdin_errors"], chunks=sc["chunks"], tty=sc.get("tty", False), environ=sc.get("environ"), module=cli, out_encoding=sc.get("out_encoding", "utf-8"), virtual=list(sc["names"].values()))
 
 
 def judge(sc: Dict[str, Any], obs: Dict[str, Any], ref: Dict[str, Any]) -> List[Tuple[str, str]]:
